@@ -292,6 +292,7 @@ func TestC07(t *testing.T) {
 				pre += rapid.SampledFrom([]string{"a", "text ", "x-", ""}).Draw(rt, "pretext") + rapid.SampledFrom([]string{"${{ 'ok' }}", "${{ 1 }}", "${{ true }} "}).Draw(rt, "prepl")
 			}
 			pre += rapid.SampledFrom([]string{"", "v", "some text ", "::"}).Draw(rt, "pretext2")
+			bareLead := 0
 			if strings.HasSuffix(info.Path, ".if") && strings.HasPrefix(text, "${{ ") && strings.Count(text, "${{") == 1 && e.what != "object-evaluated-in-template" && rapid.Bool().Draw(rt, "bareif") {
 				// if: condition without ${{ }}
 				pre = ""
@@ -301,6 +302,9 @@ func TestC07(t *testing.T) {
 				if strings.TrimSpace(text) == "" || off < 0 || e.what == "parser-unexpected-end" {
 					return // end of input is not a token of the file once the closing }} is gone
 				}
+				// spaces between the opening quote and the first token of the condition
+				bareLead = rapid.SampledFrom([]int{0, 0, 1, 2, 4}).Draw(rt, "barelead")
+				pre = strings.Repeat(" ", bareLead)
 			}
 			if e.what == "object-evaluated-in-template" && pre == "" {
 				pre = "x " // a lone expression is a typed position at some keys, not a template
@@ -309,6 +313,9 @@ func TestC07(t *testing.T) {
 			style := rapid.SampledFrom([]ye.Style{ye.Auto, ye.Single, ye.Double}).Draw(rt, "style")
 			if strings.Contains(val, "'") {
 				style = ye.Double // a single-quoted (or auto-quoted) scalar would need '' escapes
+			}
+			if bareLead > 0 && style == ye.Auto {
+				style = ye.Double // a plain scalar cannot start with spaces
 			}
 			if e.what == "object-evaluated-in-template" && strings.Contains(info.Path, ".strategy.matrix") {
 				return // objects and arrays are legitimate matrix values
